@@ -410,6 +410,9 @@ Qed.
 #[export] Hint Rewrite app_nil_l : gencsv.
 (* genhelpers: the helper functions of a generated file (Hint Unfold, added there): unfolded = inlined *)
 Create HintDb genhelpers.
+(* ixinline: index-model functions that a source may inline into their caller (tried only when the plain attempt fails) *)
+Create HintDb ixinline.
+#[export] Hint Unfold ix_extract_next_field : ixinline.
 
 Lemma py_find_ge s p i : (-1 <= py_find s p i)%Z.
 Proof.
@@ -435,6 +438,9 @@ Ltac gen_break :=
           | |- context [match ?x with _ => _ end] => destruct x eqn:?   (* e.g. a loop whose functions contain matches *)
           end).
 
+(* hook: range facts of further primitives (CsvIxJs_Proofs.v adds js_indexof) *)
+Ltac gen_ranges := idtac.
+
 (* the Boolean integer comparisons met on the way, as propositions for lia; the ranges of str.find and len *)
 Ltac gen_arith :=
   repeat match goal with
@@ -450,7 +456,8 @@ Ltac gen_arith :=
              lazymatch goal with _ : (-1 <= py_find s p i)%Z |- _ => fail | _ => pose proof (py_find_ge s p i) end
          | H : context [zlen ?l] |- _ =>
              lazymatch goal with _ : (0 <= zlen l)%Z |- _ => fail | _ => pose proof (zlen_ge l) end
-         end.
+         end;
+  gen_ranges.
 
 Ltac gen_leaf :=
   cbn [fst snd] in *;
@@ -459,9 +466,12 @@ Ltac gen_leaf :=
         | gen_arith; first [ exfalso; lia | repeat f_equal; lia ]
         | idtac ].
 
+Ltac gen_pointwise_core :=
+  autounfold with genhelpers; cbv beta zeta; autorewrite with gencsv; autorewrite with pynorm; gen_break; gen_leaf.
+
 Ltac gen_pointwise :=
   intros; repeat match goal with p : (_ * _)%type |- _ => destruct p end;
-  autounfold with genhelpers; cbv beta zeta; autorewrite with gencsv; autorewrite with pynorm; gen_break; gen_leaf.
+  first [ solve [gen_pointwise_core] | solve [autounfold with ixinline; gen_pointwise_core] ].
 
 (* the two sides contain loop combinators whose functions differ: replace the left one by the right one, pointwise *)
 Ltac gen_loops :=
